@@ -1416,6 +1416,12 @@ def _builders():
         _mfo.write_Track(path, _T().from_chords(["C", "F", "C"], 2), 120)
         return _mfi.MIDI_to_Composition(path)[0].tracks
 
+    def split_twice():
+        # whole-note chords in 3/8: every chord crosses two or three bar lines (three or four pieces)
+        t = _T()
+        t.add_bar(_B("C", (3, 8)))
+        return t.from_chords(["C", "Am", "F"], 1)
+
     def bar_of_lists():
         b = _B("C", (4, 4))
         for _ in range(4):
@@ -1432,6 +1438,7 @@ def _builders():
         "StringTuning.find_chord_fingering(E, return_best_as_NoteContainer=True)":
             lambda: A.tuning6().find_chord_fingering(_NC().from_chord("E"), return_best_as_NoteContainer=True),
         "Bar.place_notes(['C', 'E'], 4) x 4": bar_of_lists,
+        "Track (3/8).from_chords(['C', 'Am', 'F'], 1)": split_twice,
         # (a Bar's `key` is not walked inside tracks: a bar opened by Track.add_notes takes over the Key object of the bar
         # before it; the Key of a Bar built from a key *name* is that bar's own)
         "Bar('Eb', (4, 4)).key": lambda: [_B("Eb", (4, 4)).key],
